@@ -308,7 +308,9 @@ def eigen(X, P, NSIG=None, method='music', threshold=None, NFFT=default_NFFT,
 
     #return PSD, S
 
-    newpsd = np.append(PSD[nby2:0:-1], PSD[nby2*2-1:nby2-1:-1])
+    # PSD[j] holds the value at frequency -j/NFFT: mirror it (j -> -j mod
+    # NFFT), then centre it (frequencies -NFFT//2 ... (NFFT-1)//2).
+    newpsd = np.fft.fftshift(np.roll(PSD[::-1], 1))
     return newpsd, S
 
 
